@@ -37,6 +37,9 @@ def do_replay(prop, path):
     elif rp.get("kind") == "trace":
         from vf.e1.hier_jobs import replay_trace
         viol, txt = replay_trace(rp)
+    elif rp.get("kind") == "occurrences":
+        from vf.e1.hier_jobs import replay_occurrences
+        viol, txt = replay_occurrences(rp)
     elif rp.get("kind") == "policy":
         from vf.e1.parser_jobs import replay_policy
         viol, txt = replay_policy(rp)
